@@ -90,6 +90,14 @@ class StrMixin:
             self.pc.append(th.length(t) == th.length(s)) if name in ("lower", "upper") else None
             return self.wrap(t, "str")
         if name == "format":
+            # a literal template with plain positional '{}' fields only
+            if isinstance(recv, str) and not kwargs and "{" not in recv.replace("{}", "") and "}" not in recv.replace("{}", "") \
+                    and recv.count("{}") == len(args):
+                parts = recv.split("{}")
+                out = [parts[0]]
+                for a, p in zip(args, parts[1:]):
+                    out += [self.to_str(a), p]
+                return self.concat([x for x in out if not (isinstance(x, str) and x == "")])
             raise GenError("str.format on symbolic template")
         if name == "find":
             f = self.sfun("find", S, S, Int)
